@@ -1211,6 +1211,13 @@ def gen_net(r, n, tier):
             yield f"net {variant} m8 {f} {steps}" + (",q1,q2,q3,q4" if variant == "tcp" else "")
         for f in ("any", "x::1", "x127.0.0.1", "w" + hx(b"*.*.*.*"), "s::1/127.0.0.1"):
             yield f"net {variant}6 m8 {f} c1.::1" + (",q1" if variant == "tcp" else "")
+    # C16: a BURST of connections that are all queued on the listener before the server accepts the
+    # first: every one of them is filtered on its own (matching and non-matching peers interleaved)
+    for variant in ("tcp", "tls", "tlsa"):
+        for f in ("x127.0.0.1", "s127.0.0.1/127.1.2.3", "w" + hx(b"127.0.0.*"), "x127.0.0.9", "any"):
+            burst = "C1.127.0.0.1/2.127.0.0.2/3.127.0.0.1/4.127.0.0.9/5.127.1.2.3/6.127.0.0.2"
+            yield f"net {variant} m8 {f} {burst}" + (",q1,q2,q3,q4,q5,q6" if variant == "tcp" else ",p1,p2,p3,p4,p5,p6")
+            yield f"net {variant} m8 {f} C1.127.0.0.2/2.127.0.0.1,C3.127.0.0.9/4.127.0.0.9/5.127.0.0.1" + (",q1,q2,q3,q4,q5" if variant == "tcp" else ",p1,p2,p3,p4,p5")
     # C15: session limit, eviction order, isolation, shutdown
     for m in range(0, 5):
         steps = []
@@ -2127,6 +2134,14 @@ def gen_srv_edge(r, n, tier):
                     for cmd in ("!d322", "!d000,!d111"):
                         yield f"srv {fr} d000 - {units} {hx(data[:cut])},{cmd},{hx(data[cut:])}"
                     yield f"srv {fr} d000 - {units} {hx(data[:cut])},{hx(data[cut:cut + 1])},!d322,{hx(data[cut + 1:])}"
+    # (c) a flooding peer: n complete requests are available at once and a Shutdown command is queued at the
+    #     same moment (oracle case: the session must end with most of the flood unread)
+    for fr, req in (("t", mbap(1, 1, bytes([3, 0, 2, 0, 2]))), ("r", rtu(1, bytes([3, 0, 2, 0, 2]))),
+                    ("t", mbap(1, 1, bytes([6, 0, 2, 0, 9]))), ("t", mbap(1, 9, bytes([3, 0, 2, 0, 2])))):
+        for cnt, lvl in ((20000, "d000"), (3000, "d322")):
+            yield f"srv {fr} {lvl} - {units} F{cnt}.{hx(req)}"
+            # the same with the command sender dropped instead (server handle dropped, session evicted)
+            yield f"srv {fr} {lvl} - {units} Fd{cnt}.{hx(req)}"
     # lock contention (real time: 40 ms per case)
     eight_w = [bytes([5, 0, 2, 0xFF, 0]), bytes([6, 0, 2, 0x12, 0x34]), bytes([15, 0, 2, 0, 3, 1, 5]),
                bytes([16, 0, 2, 0, 2, 4, 0, 7, 0, 8])]
